@@ -28,10 +28,11 @@ type c02Stream struct {
 	ParkR int  // index of the Recv that parks after its done-check (-1: none)
 	ParkS int  // index of the Send that parks after its done-check (-1: none)
 	ParkL bool // the stream's loop parks at cs.loop.read before its first Read
+	AckS  int  // index + 1 of the Send whose Write delivers and then reports a timeout (0: none)
 }
 
 func (s c02Stream) String() string {
-	return fmt.Sprintf("%s n=%d %s / %s parkR=%d parkS=%d parkL=%v", syKinds[s.Kind], s.N, syCProgs[s.CProg], s.H, s.ParkR, s.ParkS, s.ParkL)
+	return fmt.Sprintf("%s n=%d %s / %s parkR=%d parkS=%d parkL=%v ackS=%d", syKinds[s.Kind], s.N, syCProgs[s.CProg], s.H, s.ParkR, s.ParkS, s.ParkL, s.AckS)
 }
 
 // threads of one stream (slot = stream index)
@@ -49,7 +50,9 @@ func (s c02Stream) threads(slot int, rng *rand.Rand) [][]syCop {
 		nrecv++
 		return c
 	}
-	send := func(i int) syCop { return syCop{Op: "send", Slot: slot, Pay: pay(i), Park: i == s.ParkS} }
+	send := func(i int) syCop {
+		return syCop{Op: "send", Slot: slot, Pay: pay(i), Park: i == s.ParkS, Ack: s.AckS == i+1}
+	}
 	switch s.CProg {
 	case 0:
 		for i := 0; i < s.N; i++ {
@@ -176,6 +179,9 @@ func recC02(kind string, cfg c02Cfg, streams []c02Stream, steps []syStep, comple
 		}
 		if s.ParkL {
 			tags = append(tags, "yield:loop")
+		}
+		if s.AckS > 0 {
+			tags = append(tags, "write-fault:ack-lost")
 		}
 	}
 	nev := 0
@@ -597,6 +603,21 @@ func TestC02(t *testing.T) {
 					return 0
 				})
 				rec := recC02("c02-concurrent-handler", cfg, []c02Stream{s}, steps, complete, "mode:directed-concurrent-handler")
+				sp.small(&rec)
+			}
+		}
+	}
+
+	// ---- A7. the Write of the i-th message delivers it and then reports a timeout (acknowledgement lost): the message may
+	// arrive, once; the failed SendMsg tears the stream down
+	for kind := 0; kind < 3; kind += 2 {
+		for _, hp := range []syHProg{{J: -1, Echo: true, Ping: true}, {J: -1, Echo: true}, {J: 3, N: 1}} {
+			for _, at := range []int{1, 3, 5} {
+				s := c02Stream{Kind: kind, N: 5, CProg: 0, ParkR: -1, ParkS: -1, AckS: at, H: hp}
+				s.H.Seed = int64(9500 + kind*10 + at)
+				cfg := c02Cfg{0, (kind+at)%2 == 1}
+				steps, complete := runC02Lock(t, cfg, []c02Stream{s}, int64(9500+kind*100+at), func(step int, en []syAct) int { return 0 })
+				rec := recC02("c02-ack-lost", cfg, []c02Stream{s}, steps, complete, "mode:directed-fault")
 				sp.small(&rec)
 			}
 		}
